@@ -206,6 +206,30 @@ func projWKB(g geom.T, ord func(float64) any) map[string]any {
 	return p
 }
 
+// outerSridOnly: a copy of a projection (projWKB) in which only the outermost geometry keeps its SRID. The formats promise
+// the SRID of the outermost geometry only, so the stability of a decoded tree is recorded on this image as well (d1m, d2m).
+func outerSridOnly(p map[string]any, top bool) map[string]any {
+	q := map[string]any{}
+	for k, v := range p {
+		q[k] = v
+	}
+	if !top {
+		q["srid"] = []int{}
+	}
+	if ks, ok := p["body"].([]any); ok {
+		body := make([]any, len(ks))
+		for i, k := range ks {
+			if m, ok := k.(map[string]any); ok {
+				body[i] = outerSridOnly(m, false)
+			} else {
+				body[i] = k
+			}
+		}
+		q["body"] = body
+	}
+	return q
+}
+
 func digestOf(v any) string {
 	b, _ := json.Marshal(v)
 	h := sha1.Sum(b)
@@ -384,7 +408,7 @@ func wkbEncHandler(raw json.RawMessage) map[string]any {
 	obs["wr"], obs["wrs"], obs["rd"] = []any{}, []any{}, []any{}
 	obs["hex"] = map[string]any{"ok": false, "nib": []int{}, "lower": false, "dlow": "", "dup": ""}
 	obs["sql"] = []any{}
-	obs["ne"], obs["ndr"], obs["sqlv"], obs["wf"] = []any{}, []int{}, []any{}, []any{}
+	obs["ne"], obs["ndr"], obs["xdr"], obs["sqlv"], obs["wf"] = []any{}, []int{}, []int{}, []any{}, []any{}
 	wf := &wfSet{seen: map[string]bool{}, list: []any{}}
 	if !fourD(c.G) {
 		// a geometry the formats cannot carry: should an encoder hand out bytes for it all the same, they are decoded
@@ -402,6 +426,9 @@ func wkbEncHandler(raw json.RawMessage) map[string]any {
 	enc["ok"], enc["bytes"] = true, byteInts(b)
 	if bn, err := marshalFlavor(g, wkb.NDR, c.Flavor); err == nil {
 		obs["ndr"] = byteInts(bn)
+	}
+	if bx, err := marshalFlavor(g, wkb.XDR, c.Flavor); err == nil {
+		obs["xdr"] = byteInts(bx)
 	}
 	// decode
 	rd := &schedReader{data: b, sizes: []int{0}}
@@ -751,7 +778,8 @@ func sqlObs(g geom.T, flavor string, wf *wfSet) []any {
 		e := map[string]any{"w": wt, "str": "error", "int": "error", "nil": "error"}
 		scan := func(pfx string, src []byte) {
 			w, get := mk()
-			e[pfx+"scan"], e[pfx+"d"], e[pfx+"val"], e[pfx+"valok"] = "none", "", []int{}, false
+			// scan: none | wrongtype (wkbcommon.ErrUnexpectedType) | error (any other error) | null | panic; msg: the text
+			e[pfx+"scan"], e[pfx+"d"], e[pfx+"val"], e[pfx+"valok"], e[pfx+"msg"] = "none", "", []int{}, false, ""
 			ev, msg := call(func() {
 				err := w.Scan(append([]byte{}, src...))
 				if err != nil {
@@ -759,8 +787,9 @@ func sqlObs(g geom.T, flavor string, wf *wfSet) []any {
 					if errors.As(err, &ext) {
 						e[pfx+"scan"] = "wrongtype"
 					} else {
-						e[pfx+"scan"] = "other: " + err.Error()
+						e[pfx+"scan"] = "error"
 					}
+					e[pfx+"msg"] = err.Error()
 					return
 				}
 				if isNilGeom(get()) {
@@ -775,7 +804,7 @@ func sqlObs(g geom.T, flavor string, wf *wfSet) []any {
 				}
 			})
 			if ev != "ok" {
-				e[pfx+"scan"] = "panic: " + msg
+				e[pfx+"scan"], e[pfx+"msg"] = "panic", msg
 			}
 		}
 		scan("", b)
@@ -840,7 +869,7 @@ func wkbDecHandler(raw json.RawMessage) map[string]any {
 		fl = "wkbnan"
 	}
 	noG := map[string]any{"t": "-", "l": "-", "srid": []int{}, "body": []any{}}
-	obs := map[string]any{"ok": false, "err": "none", "errclass": "none", "g": noG, "consumed": -1, "alloc": 0, "d1": "", "d2": "", "re": "none", "wf": []any{},
+	obs := map[string]any{"ok": false, "err": "none", "errclass": "none", "g": noG, "consumed": -1, "alloc": 0, "d1": "", "d2": "", "d1m": "", "d2m": "", "re": "none", "wf": []any{},
 		"deep": false, "pre": []any{}}
 	var g geom.T
 	var err error
@@ -920,7 +949,7 @@ func wkbDecHandler(raw json.RawMessage) map[string]any {
 	obs["ok"] = true
 	if ev, msg := call(func() {
 		p := projWKB(g, ordBytes)
-		obs["consumed"], obs["d1"] = rd.pos, digestOf(p)
+		obs["consumed"], obs["d1"], obs["d1m"] = rd.pos, digestOf(p), digestOf(outerSridOnly(p, true))
 		if gcDepth(g) > 40 {
 			// the JSON reader of the model checker refuses documents nested deeper than 255: a deep tree is recorded
 			// as its preorder node list (collections: member count; every other geometry: the complete node)
@@ -940,7 +969,8 @@ func wkbDecHandler(raw json.RawMessage) map[string]any {
 			obs["re"] = "decode-error: " + err.Error()
 			return
 		}
-		obs["re"], obs["d2"] = "ok", digestOf(projWKB(g2, ordBytes))
+		p2 := projWKB(g2, ordBytes)
+		obs["re"], obs["d2"], obs["d2m"] = "ok", digestOf(p2), digestOf(outerSridOnly(p2, true))
 	}); ev != "ok" {
 		obs["err"], obs["errclass"] = "panic-in-result: "+msg, "panic"
 		obs["ok"] = false
